@@ -122,11 +122,38 @@ pub static mut SINK_RECORDS_LIVE: bool = false;
 pub static mut SINK_LEN: usize = 0;
 pub static mut SINK_ELEM0: (usize, usize) = (0, 0);
 pub static mut SINK_FIRST_BYTE: u8 = 0;
+pub static mut FETCH_CALLS: u32 = 0;
+pub static mut FETCH_ARG: u32 = 0;
+pub static mut FETCH_LEN: usize = 0;
+pub static mut FETCH_INNER: usize = 0;
+pub static mut FETCH_BYTE: u8 = 0;
 pub static mut FVAR_CALLS: u32 = 0;
 pub static mut HOST_FVAR: (i32, u64) = (0, 0); // what the host lifted: (case, payload bits)
 pub static mut HOST_FVAR_RET: (u8, u64) = (0, 0); // what the host returns
 pub mod mockhost {
     use super::*;
+    /// fetch-names(n) -> list<string>: the host allocates the list and every string in the guest (through cabi_realloc: here the ledger's
+    /// allocator) and stores (pointer, length) in the return area; afterwards all of it belongs to the caller
+    pub unsafe fn verif_val_sinks__fetch_names(n: i32, ret: *mut u8) {
+        unsafe {
+            FETCH_CALLS += 1;
+            FETCH_ARG = n as u32;
+            let list: *mut u8 = if FETCH_LEN == 0 { P as *mut u8 } else { alloc_stub(core::alloc::Layout::from_size_align(2 * P * FETCH_LEN, P).unwrap()) };
+            let mut i = 0;
+            while i < FETCH_LEN {
+                let e: *mut u8 = if FETCH_INNER == 0 { 1 as *mut u8 } else {
+                    let e = alloc_stub(core::alloc::Layout::from_size_align(FETCH_INNER, 1).unwrap());
+                    *e = FETCH_BYTE;
+                    e
+                };
+                list.add(2 * P * i).cast::<*mut u8>().write(e);
+                list.add(2 * P * i + P).cast::<usize>().write(FETCH_INNER);
+                i += 1;
+            }
+            ret.cast::<*mut u8>().write(list);
+            ret.add(P).cast::<usize>().write(FETCH_LEN);
+        }
+    }
     /// send-fvar(variant { f(f32), w(u64), d(f64) }) -> the same type: flat (case, joined i64 slot, return pointer).  The host lifts as
     /// CanonicalABI.md's lift_flat_variant does (an f32 in an i64 slot: wrap to i32, reinterpret) and stores its result canonically.
     pub unsafe fn verif_val_sinks__send_fvar(case: i32, slot: i64, ret: *mut u8) {
@@ -174,6 +201,12 @@ pub static mut SEEN_PAIRS: Option<Vec<(u8, u32, u8)>> = None;
 pub static mut RET_PAIRS: Option<Vec<(u8, u32, u8)>> = None;
 pub static mut SEEN_ENTRIES: Option<Vec<Entry>> = None;
 pub static mut RET_ENTRIES: Option<Vec<Entry>> = None;
+pub static mut SEEN_SCAL: Option<Scal> = None;
+pub static mut RET_SCAL: Option<Scal> = None;
+pub static mut SEEN_BIG: u32 = 0;
+pub static mut RET_BIG: u32 = 0;
+pub static mut SEEN_OO: Option<Option<u8>> = None;
+pub static mut RET_OO: Option<Option<u8>> = None;
 pub static mut SEEN_ROK: Result<u32, ()> = Err(());
 pub static mut RET_ROK: Result<u32, ()> = Err(());
 pub static mut SEEN_RERR: Result<(), u8> = Ok(());
@@ -255,6 +288,27 @@ impl Guest for Impl {
             CALLS += 1;
             SEEN_ENTRIES = Some(a);
             RET_ENTRIES.take().unwrap()
+        }
+    }
+    fn echo_scal(a: Scal) -> Scal {
+        unsafe {
+            CALLS += 1;
+            SEEN_SCAL = Some(a);
+            RET_SCAL.unwrap()
+        }
+    }
+    fn echo_big(a: Big) -> Big {
+        unsafe {
+            CALLS += 1;
+            SEEN_BIG = a.bits();
+            Big::from_bits_retain(RET_BIG)
+        }
+    }
+    fn echo_oo(a: Option<Option<u8>>) -> Option<Option<u8>> {
+        unsafe {
+            CALLS += 1;
+            SEEN_OO = a;
+            RET_OO
         }
     }
     fn echo_rok(a: Result<u32, ()>) -> Result<u32, ()> {
@@ -1395,5 +1449,143 @@ mod proofs {
                 kani::assert(rd::<u8>(ret, 0) == rerr as u8 && (!rerr || rd::<u8>(ret, 1) == rv as u8), "result<_, u8> is stored canonically (discriminant @0, err payload @1)");
             }
         }
+    }
+
+    /// record { bool, char, s8, s16, s64, f32, f64 }: every scalar kind in one record, full domains (floats as bit patterns)
+    fn any_char() -> char {
+        let c: u32 = kani::any();
+        kani::assume(c < 0xD800 || (c > 0xDFFF && c <= 0x10FFFF));
+        char::from_u32(c).unwrap()
+    }
+    #[kani::proof]
+    pub fn c05_scalar_record_unchanged_both_ways() {
+        let (b, rb): (bool, bool) = (kani::any(), kani::any());
+        let (c, rc) = (any_char(), any_char());
+        let (s, rs): (i8, i8) = (kani::any(), kani::any());
+        let (h, rh): (i16, i16) = (kani::any(), kani::any());
+        let (l, rl): (i64, i64) = (kani::any(), kani::any());
+        let (f, rf): (u32, u32) = (kani::any(), kani::any());
+        let (d, rdd): (u64, u64) = (kani::any(), kani::any());
+        unsafe {
+            RET_SCAL = Some(Scal { b: rb, c: rc, s: rs, h: rh, l: rl, f: f32::from_bits(rf), d: f64::from_bits(rdd) });
+            // the host sign-extends s8 / s16 into the core i32 (lower_flat)
+            let ret = _export_echo_scal_cabi::<Impl>(b as i32, c as u32 as i32, s as i32, h as i32, l, f32::from_bits(f), f64::from_bits(d));
+            let seen = SEEN_SCAL.unwrap();
+            kani::assert(CALLS == 1 && seen.b == b && seen.c == c && seen.s == s && seen.h == h && seen.l == l && seen.f.to_bits() == f && seen.d.to_bits() == d,
+                "bool, char, s8, s16, s64, f32 (bits), f64 (bits) arrive unchanged");
+            kani::assert(rd::<u8>(ret, 0) == rb as u8 && rd::<u32>(ret, 4) == rc as u32 && rd::<i8>(ret, 8) == rs && rd::<i16>(ret, 10) == rh && rd::<i64>(ret, 16) == rl
+                && rd::<u32>(ret, 24) == rf && rd::<u64>(ret, 32) == rdd, "the returned record is stored at its canonical offsets (0, 4, 8, 10, 16, 24, 32)");
+        }
+    }
+    #[kani::proof]
+    pub fn c05_flags_32_and_nested_option_unchanged_both_ways() {
+        let (v, rv): (u32, u32) = (kani::any(), kani::any());
+        unsafe {
+            RET_BIG = rv;
+            let r = _export_echo_big_cabi::<Impl>(v as i32);
+            kani::assert(CALLS == 1 && SEEN_BIG == v && r as u32 == rv, "a flags value with 32 members travels as exactly its bit set (bit 31 included)");
+            let a: Option<Option<u8>> = kani::any();
+            let r2: Option<Option<u8>> = kani::any();
+            RET_OO = r2;
+            let (d0, d1, p) = match a { None => (0, 0, 0), Some(None) => (1, 0, 0), Some(Some(x)) => (1, 1, x as i32) };
+            let ret = _export_echo_oo_cabi::<Impl>(d0, d1, p);
+            kani::assert(CALLS == 2 && SEEN_OO == a, "option<option<u8>> arrives unchanged (none, some(none), some(some(v)) are distinct)");
+            let (e0, e1, e2): (u8, u8, u8) = match r2 { None => (0, 0, 0), Some(None) => (1, 0, 0), Some(Some(x)) => (1, 1, x) };
+            kani::assert(rd::<u8>(ret, 0) == e0 && (e0 == 0 || (rd::<u8>(ret, 1) == e1 && (e1 == 0 || rd::<u8>(ret, 2) == e2))), "the returned nested option is stored canonically (outer @0, inner @1, payload @2)");
+        }
+    }
+
+    /// list<string> RETURNED by an import: the guest takes over what the host allocated for it; values unchanged, everything freed exactly once
+    fn body_import_result(values: bool, memory: bool, n: usize) {
+        let inner: usize = kani::any();
+        kani::assume(inner <= 1);
+        let b = ascii2()[0];
+        let arg: u32 = kani::any();
+        unsafe {
+            FETCH_LEN = n;
+            FETCH_INNER = inner;
+            FETCH_BYTE = b;
+            let got = verif::val::sinks::fetch_names(arg);
+            if values {
+                kani::assert(FETCH_CALLS == 1 && FETCH_ARG == arg && got.len() == n, "exactly one core call with the flat argument; the list arrives with its length");
+                let mut i = 0;
+                while i < n {
+                    kani::assert(got[i].len() == inner && (inner < 1 || got[i].as_bytes()[0] == b), "each string the host returned arrives unchanged");
+                    i += 1;
+                }
+            }
+            drop(got);
+            kani::assert(!LEDGER_FULL, "HARNESS-LIMIT: allocation ledger full");
+            if memory { kani::assert(!BAD_FREE, "every block is freed at most once, with the size and alignment it was allocated with"); }
+            if memory { kani::assert(live_blocks() == 0, "the list buffer and every string the host allocated are released once the value is dropped"); }
+        }
+        kani::cover!(inner == 1);
+        kani::cover!(inner == 0);
+    }
+    #[kani::proof]
+    #[kani::unwind(4)]
+    #[kani::stub(alloc::alloc::alloc, alloc_stub)]
+    #[kani::stub(alloc::alloc::dealloc, dealloc_stub)]
+    #[kani::stub(alloc::alloc::realloc, realloc_stub)]
+    #[kani::stub(alloc::alloc::dealloc_nonnull, dealloc_nonnull_stub)]
+    #[kani::stub(alloc::alloc::realloc_nonnull, realloc_nonnull_stub)]
+    #[kani::stub(alloc::string::String::from_utf8, from_utf8_stub)]
+    pub fn c05_import_result_list_of_strings_len0() {
+        body_import_result(true, false, 0);
+    }
+    #[kani::proof]
+    #[kani::unwind(4)]
+    #[kani::stub(alloc::alloc::alloc, alloc_stub)]
+    #[kani::stub(alloc::alloc::dealloc, dealloc_stub)]
+    #[kani::stub(alloc::alloc::realloc, realloc_stub)]
+    #[kani::stub(alloc::alloc::dealloc_nonnull, dealloc_nonnull_stub)]
+    #[kani::stub(alloc::alloc::realloc_nonnull, realloc_nonnull_stub)]
+    #[kani::stub(alloc::string::String::from_utf8, from_utf8_stub)]
+    pub fn c05_import_result_list_of_strings_len1() {
+        body_import_result(true, false, 1);
+    }
+    #[kani::proof]
+    #[kani::unwind(4)]
+    #[kani::stub(alloc::alloc::alloc, alloc_stub)]
+    #[kani::stub(alloc::alloc::dealloc, dealloc_stub)]
+    #[kani::stub(alloc::alloc::realloc, realloc_stub)]
+    #[kani::stub(alloc::alloc::dealloc_nonnull, dealloc_nonnull_stub)]
+    #[kani::stub(alloc::alloc::realloc_nonnull, realloc_nonnull_stub)]
+    #[kani::stub(alloc::string::String::from_utf8, from_utf8_stub)]
+    pub fn c05_import_result_list_of_strings_len2() {
+        body_import_result(true, false, 2);
+    }
+    #[kani::proof]
+    #[kani::unwind(4)]
+    #[kani::stub(alloc::alloc::alloc, alloc_stub)]
+    #[kani::stub(alloc::alloc::dealloc, dealloc_stub)]
+    #[kani::stub(alloc::alloc::realloc, realloc_stub)]
+    #[kani::stub(alloc::alloc::dealloc_nonnull, dealloc_nonnull_stub)]
+    #[kani::stub(alloc::alloc::realloc_nonnull, realloc_nonnull_stub)]
+    #[kani::stub(alloc::string::String::from_utf8, from_utf8_stub)]
+    pub fn c06_import_result_list_of_strings_len0() {
+        body_import_result(false, true, 0);
+    }
+    #[kani::proof]
+    #[kani::unwind(4)]
+    #[kani::stub(alloc::alloc::alloc, alloc_stub)]
+    #[kani::stub(alloc::alloc::dealloc, dealloc_stub)]
+    #[kani::stub(alloc::alloc::realloc, realloc_stub)]
+    #[kani::stub(alloc::alloc::dealloc_nonnull, dealloc_nonnull_stub)]
+    #[kani::stub(alloc::alloc::realloc_nonnull, realloc_nonnull_stub)]
+    #[kani::stub(alloc::string::String::from_utf8, from_utf8_stub)]
+    pub fn c06_import_result_list_of_strings_len1() {
+        body_import_result(false, true, 1);
+    }
+    #[kani::proof]
+    #[kani::unwind(4)]
+    #[kani::stub(alloc::alloc::alloc, alloc_stub)]
+    #[kani::stub(alloc::alloc::dealloc, dealloc_stub)]
+    #[kani::stub(alloc::alloc::realloc, realloc_stub)]
+    #[kani::stub(alloc::alloc::dealloc_nonnull, dealloc_nonnull_stub)]
+    #[kani::stub(alloc::alloc::realloc_nonnull, realloc_nonnull_stub)]
+    #[kani::stub(alloc::string::String::from_utf8, from_utf8_stub)]
+    pub fn c06_import_result_list_of_strings_len2() {
+        body_import_result(false, true, 2);
     }
 }
